@@ -80,6 +80,10 @@ def gen_program(rng):
     hdr.append("serial:%d" % rng.choice([1, 2, 0x7fffffff, 0xffffffff, rng.getrandbits(32) or 1]))
     for bit in (1, 2, 4):
         if rng.random() < 0.3: hdr.append("flag:%d:%d" % (bit, rng.choice([0, 1])))
+    optional = [c for c in (2, 6, 7, 10) if c not in need]
+    late = []
+    if rng.random() < 0.35:
+        late.append("clr:%d" % rng.choice(optional))           # clear a field that may be present or absent
     nvals = rng.choice([0, 1, 1, 2, 3, 4])
     vals = []
     for _ in range(nvals):
@@ -92,6 +96,10 @@ def gen_program(rng):
     for i in range(nvals + 1):
         ops += slots[i]
         if i < nvals: ops += vals[i]
+    if late and rng.random() < 0.5:
+        ops += late                                            # as the very last header modification
+    elif late:
+        ops.insert(rng.randrange(1, len(ops) + 1) if all(not o.startswith(("open", "close", "b:", "fa:")) for o in ops[1:]) else 1 + len(slots[0]), late[0])
     return ops
 
 
